@@ -2,6 +2,7 @@ package drv
 
 import (
 	"reflect"
+	"verif/mc/api"
 
 	"github.com/mlange-42/ark/ecs"
 
@@ -207,3 +208,6 @@ func (x *World) checkResources() *Violation {
 	}
 	return nil
 }
+
+// QueryObject returns the raw query object in a slot (C20 misuse family).
+func (x *World) QueryObject(q int) api.Query { return x.queries[q].q }
